@@ -58,13 +58,38 @@ func anyRouter(*http.Request, *types.Context) bool { return true }
 // 前一个对象返回的实例将作为下一个对象的输入参数。
 func AndMatcher(m ...Matcher) Matcher {
 	return MatcherFunc(func(r *http.Request, ctx *types.Context) bool {
-		for _, mm := range m {
+		path := r.URL.Path
+		params := copyParams(ctx)
+
+		for i, mm := range m {
 			if !mm.Match(r, ctx) {
+				if i > 0 { // 之前匹配成功的对象可能修改了路径和参数，需要恢复。
+					r.URL.Path = path
+					restoreParams(ctx, params)
+				}
 				return false
 			}
 		}
 		return true
 	})
+}
+
+func copyParams(ctx *types.Context) map[string]string {
+	params := make(map[string]string, ctx.Count())
+	ctx.Range(func(k, v string) { params[k] = v })
+	return params
+}
+
+// 将 ctx 中的参数恢复为 params
+func restoreParams(ctx *types.Context, params map[string]string) {
+	ctx.Range(func(k, _ string) {
+		if _, found := params[k]; !found {
+			ctx.Delete(k)
+		}
+	})
+	for k, v := range params {
+		ctx.Set(k, v)
+	}
 }
 
 // OrMatcher 仅需符合一个要求
